@@ -119,9 +119,15 @@ structure State where
   sph : SPh
   cur : Job := 0
   todo : List Job := []
-  mons : List Mon := []
-  subs : List Sub := []
+  old : List Mon := []              -- monitor threads created before the current one, in creation order
+  mon : Option Mon := none          -- the thread `self._thread` (Glue: `self._monitor_thread`) refers to
+  oldSubs : List Sub := []          -- Glue: earlier submission threads
+  sub : Option Sub := none          -- Glue: `self._submit_thread`
   deriving Repr
+
+/-- all monitor / submission threads in creation order (thread `M k` / `U k` is element `k`) -/
+def State.mons (s : State) : List Mon := s.old ++ s.mon.toList
+def State.subs (s : State) : List Sub := s.oldSubs ++ s.sub.toList
 
 def init (jobs : List Job) : State :=
   match jobs with
@@ -133,12 +139,12 @@ def monAlive (m : Mon) : Bool := m.ph != .unstarted && m.ph != .dead
 def subAlive (u : Sub) : Bool := u.ph != .unstarted && u.ph != .dead
 
 def lastMonAlive (s : State) : Bool :=
-  match s.mons.getLast? with
+  match s.mon with
   | some m => monAlive m
   | none => false
 
 def lastSubAlive (s : State) : Bool :=
-  match s.subs.getLast? with
+  match s.sub with
   | some u => subAlive u
   | none => false
 
@@ -175,11 +181,6 @@ def finishS (s : State) : State :=
   | [] => { s with sph := .done }
   | j :: r => { s with sph := .ins, cur := j, todo := r }
 
-def setLast {α : Type} : List α → (α → α) → List α
-  | [], _ => []
-  | [x], f => [f x]
-  | x :: y :: r, f => x :: setLast (y :: r) f
-
 /-! ### the scheduler thread -/
 def stepS (V : Variant) (s : State) : Option State :=
   match s.sph with
@@ -204,19 +205,19 @@ def stepS (V : Variant) (s : State) : Option State :=
     else some { s with flag := true, sph := sNops V.sNewPre .newPre .new }
   | .testMon => if lastMonAlive s then some { s with sph := .testSub } else some { s with sph := .new }
   | .newPre r => some { s with sph := sNops r.tail .newPre .new }
-  | .new => some { s with mons := s.mons ++ [{ ph := .unstarted }], sph := .start }
+  | .new => some { s with old := s.old ++ s.mon.toList, mon := some { ph := .unstarted }, sph := .start }
   | .start =>
     -- Thread.start() of the thread object created by the line before (a started thread cannot be started again)
-    let s := { s with mons := setLast s.mons (fun m => if m.ph = .unstarted then { m with ph := mNops V.mPre .pre .loop } else m) }
+    let s := { s with mon := s.mon.map (fun m => if m.ph = .unstarted then { m with ph := mNops V.mPre .pre .loop } else m) }
     if V.glue then some { s with sph := .testSub } else some (finishS s)
   | .testSub => if lastSubAlive s then some (finishS s) else some { s with sph := .newSub }
-  | .newSub => some { s with subs := s.subs ++ [{ ph := .unstarted }], sph := .startSub }
+  | .newSub => some { s with oldSubs := s.oldSubs ++ s.sub.toList, sub := some { ph := .unstarted }, sph := .startSub }
   | .startSub =>
-    some (finishS { s with subs := setLast s.subs (fun u => if u.ph = .unstarted then { u with ph := uNops V.uPre .pre .outer } else u) })
+    some (finishS { s with sub := s.sub.map (fun u => if u.ph = .unstarted then { u with ph := uNops V.uPre .pre .outer } else u) })
   | .done => none
 
 /-! ### a monitor thread -/
-def stepMon (V : Variant) (s : State) (k : Nat) (m : Mon) : Option (State × Mon) :=
+def stepMon (V : Variant) (s : State) (isLast : Bool) (m : Mon) : Option (State × Mon) :=
   match m.ph with
   | .unstarted => none
   | .dead => none
@@ -255,16 +256,24 @@ def stepMon (V : Variant) (s : State) (k : Nat) (m : Mon) : Option (State × Mon
       | .arrStop => some ({ s with arrAlive := false }, { m with ph := mPost r' })
       | .tSet => some (s, { m with ph := mPost r' })
       | .tAlive => if lastMonAlive s then some (s, { m with ph := mPost r' }) else some (s, { m with ph := .dead })
-      | .tNotMe => if k + 1 != s.mons.length then some (s, { m with ph := mPost r' }) else some (s, { m with ph := .dead })
+      | .tNotMe => if !isLast then some (s, { m with ph := mPost r' }) else some (s, { m with ph := .dead })
       | .join => if lastMonAlive s then none else some (s, { m with ph := mPost r' })
 
 def stepM (V : Variant) (s : State) (k : Nat) : Option State :=
-  match s.mons[k]? with
-  | none => none
+  match s.old[k]? with
   | some m =>
-    match stepMon V s k m with
+    match stepMon V s false m with
     | none => none
-    | some (s', m') => some { s' with mons := s'.mons.set k m' }
+    | some (s', m') => some { s' with old := s'.old.set k m' }
+  | none =>
+    if k = s.old.length then
+      match s.mon with
+      | none => none
+      | some m =>
+        match stepMon V s true m with
+        | none => none
+        | some (s', m') => some { s' with mon := some m' }
+    else none
 
 /-! ### a Glue submission thread -/
 def stepSub (V : Variant) (s : State) (u : Sub) : Option (State × Sub) :=
@@ -285,12 +294,20 @@ def stepSub (V : Variant) (s : State) (u : Sub) : Option (State × Sub) :=
   | .sleep r => some (s, { u with ph := uNops r.tail .sleep .outer })
 
 def stepU (V : Variant) (s : State) (k : Nat) : Option State :=
-  match s.subs[k]? with
-  | none => none
+  match s.oldSubs[k]? with
   | some u =>
     match stepSub V s u with
     | none => none
-    | some (s', u') => some { s' with subs := s'.subs.set k u' }
+    | some (s', u') => some { s' with oldSubs := s'.oldSubs.set k u' }
+  | none =>
+    if k = s.oldSubs.length then
+      match s.sub with
+      | none => none
+      | some u =>
+        match stepSub V s u with
+        | none => none
+        | some (s', u') => some { s' with sub := some u' }
+    else none
 
 /-- one poll of the (coarse) arrayer thread: every queued job is handed to the executor -/
 def stepA (s : State) : Option State :=
